@@ -8,8 +8,8 @@ Extraction Language OCaml.
 (* Z.pow / Z.log2 / Z.testbit are not covered by ExtrOcamlZBigInt; the structural versions dominate the run time of
    the Word.v operations (`x mod 2 ^ 64` is evaluated in every field operation).  Map them to zarith. *)
 Extract Constant Z.pow => "(fun x y -> if Big_int_Z.sign_big_int y < 0 then Big_int_Z.zero_big_int else Big_int_Z.power_big_int_positive_big_int x y)".
-Extract Constant Z.log2 => "(fun x -> if Big_int_Z.sign_big_int x <= 0 then Big_int_Z.zero_big_int else Big_int_Z.big_int_of_int (Big_int_Z.num_bits_big_int x - 1))".
-Extract Constant Z.testbit => "(fun x i -> if Big_int_Z.sign_big_int i < 0 then false else Z.testbit x (Big_int_Z.int_of_big_int i))".
+Extract Constant Z.log2 => "(fun x -> let rec lg x acc = if Big_int_Z.le_big_int x Big_int_Z.unit_big_int then acc else lg (Big_int_Z.shift_right_big_int x 1) (acc + 1) in Big_int_Z.big_int_of_int (lg x 0))".
+Extract Constant Z.testbit => "(fun x i -> if Big_int_Z.sign_big_int i < 0 then false else Big_int_Z.sign_big_int (Big_int_Z.and_big_int (Big_int_Z.shift_right_big_int x (Big_int_Z.int_of_big_int i)) Big_int_Z.unit_big_int) <> 0)".
 Extraction "../ocaml/gen_c07/model.ml"
   P bfe_new bfe_value bfe_zero bfe_one bfe_mul bfe_add xscale xlift xunlift
   bfe_ops xfe_ops bb_act xb_act xx_act fzero fone fadd fsub fmul fneg finv feqb ffrom_u64 smul slift
